@@ -108,7 +108,7 @@ func c14Templates() map[string][]gen.Node {
 		"include":             {&gen.NInclude{Tpl: str("part"), With: &gen.EHash{Keys: []gen.Expr{nm("w")}, Vals: []gen.Expr{num(1)}}, Only: true}, &gen.NInclude{Tpl: bin("~", str("pa"), str("rt"))}, &gen.NInclude{Tpl: str("part"), Only: true}},
 		"embed":               {&gen.NEmbed{Tpl: str("lay"), With: &gen.EHash{Keys: []gen.Expr{nm("w")}, Vals: []gen.Expr{str("x")}}, Only: true, Blocks: []*gen.NBlock{{Name: "eb", Body: []gen.Node{tx("over")}}}}},
 		"do":                  {&gen.NDo{X: &gen.ECall{Fn: "fn", Args: []gen.Expr{num(1)}}}},
-		"verbatim":            {&gen.NVerbatim{S: "{{ raw }}"}},
+		"verbatim":            {&gen.NVerbatim{S: "{{ raw }}{% if x %}y{% endif %}{{ 'unclosed"}},
 		"arithmetic":          e(bin("-", bin("+", num(1), bin("*", num(2), num(3))), bin("/", num(8), num(4)))),
 		"power-floor-mod":     e(bin("+", bin("**", num(2), num(3)), bin("%", bin("//", num(7), num(2)), num(2)))),
 		"concat-compare":      e(bin("==", bin("~", nm("s"), str("x")), str("abcx"))),
